@@ -309,3 +309,39 @@ func TestC06(t *testing.T) {
 		fmt.Fprintf(os.Stderr, "note: %d inputs needed the second watchdog stage\n", n)
 	}
 }
+
+// TestC06Known reproduces the open known finding of C06 (unbounded recursion of the SML parser) in an
+// isolated worker and prints a KNOWN-FINDING-REPRODUCED line when it still fails.
+func TestC06Known(t *testing.T) {
+	raw, _ := os.ReadFile(os.Getenv("VERIF_ROOT") + "/KNOWN_FINDINGS.txt")
+	if !strings.Contains(string(raw), "key=sml-nesting-stack-overflow") {
+		t.Skip("no open finding listed")
+	}
+	// quick: the same recursion under a 32 MB goroutine stack limit (60 000 levels, 240 KB of text);
+	// thorough: the real thing, 700 000 levels (2.1 MB) under Go's default 1 GB limit
+	levels, env, budget := 60000, []string{"VERIF_MAXSTACK=33554432"}, 5*time.Minute
+	how := "60000 nested '<L' under a 32 MB goroutine stack limit"
+	if isThorough() {
+		levels, env, budget = 700000, nil, 20*time.Minute
+		how = "700000 nested '<L' (2.1 MB of text) under Go's default 1 GB stack limit"
+	}
+	in := "S1F1 H->E deep\n" + strings.Repeat("<L\n", levels)
+	out, werr := runFresh("sml", []byte(in), budget, env...)
+	stats.record([]byte("known-sml-nesting"), &caseInfo{Nontrivial: true, Labels: []string{"known-finding-reproduction"}}, func() interface{} {
+		return map[string]interface{}{"text": "S1F1 H->E deep\n + '<L\n' x " + fmt.Sprint(levels), "env": env}
+	})
+	switch {
+	case werr != nil:
+		t.Fatalf("harness: %v", werr)
+	case out.Died && out.Fatal == "stack overflow":
+		fmt.Printf("KNOWN-FINDING-REPRODUCED property=C06 key=sml-nesting-stack-overflow sml.Parse: list nesting recursion is unbounded - %s abort the process with a fatal stack overflow (about 664000 levels suffice under the default limit)\n", how)
+	case out.Died:
+		err := fmt.Errorf("sml.Parse aborted the process (%s) on the deep-nesting input\n%s", out.Fatal, out.Stderr)
+		c := mkC06(in[:200], "known-finding-deep-nesting(truncated)", nil)
+		t.Fatalf("PROPERTY-VIOLATION property=C06 check=c06 replay=%s\n%v", writeReplay("C06", "c06", c, err), err)
+	case out.TimedOut:
+		fmt.Println("NOTE deep-nesting reproduction timed out (inconclusive)")
+	default:
+		fmt.Println("NOTE known finding sml-nesting-stack-overflow no longer reproduces (fixed?)")
+	}
+}
